@@ -1130,6 +1130,25 @@ def process_case(args):
                             if cf:
                                 info['fallback_sig'] = sig
                                 sig = cf
+                        # a failing point whose culprit definition also shows a CtxCovers gap on the recorded contexts is a
+                        # context propagation / merge defect (not one of the conversion-time classes): own signature
+                        try:
+                            import c01_gadgets
+                            mv, _gv = c01gen.model_from_json(small['model'])
+                            vstub = os.path.join(wdir, 'val')
+                            mv.write(vstub, names=False)
+                            v2 = c01_gadgets.validate_model(exe, vstub, small['cfg']['options'], len(mv.vars),
+                                                            quadobj=small['cfg'].get('quadobj', 1))
+                            if v2.get('status') == 'ok' and v2.get('gaps'):
+                                culprit_vars = {str((c.get('data') or {}).get('res_var')) for c in (info.get('culprits') or [])}
+                                culprit_vars |= {str(k[1]) for k in []}
+                                hit = [g for g in v2['gaps'] if g.split(':')[0] in culprit_vars]
+                                if hit or not culprit_vars:
+                                    info['ctx_gaps'] = v2['gaps']
+                                    info['fallback_sig'] = sig
+                                    sig = 'ctx-merge-gap:' + '+'.join(sorted({g.split(':')[1] for g in (hit or v2['gaps'])}))
+                        except Exception:
+                            pass
                         out['sig'] = sig
                         out['case'] = small
                         out['orig_case'] = case if small is not case else None
